@@ -78,6 +78,13 @@ CHECKS["C14"] = dict(
     ref="DESIGN.md 5 C14",
 )
 
+CHECKS["C08"] = dict(
+    text="A generated import chain (depth <= 3) is served by a simulated network in which every document independently has a wire encoding, BOM / @charset (truthful or lying) / neither, an HTTP charset (absent, truthful, lying), bytes or text delivery and fetch faults; every document carries marker bytes that decode differently under each candidate encoding, so the DOM reveals the encoding actually used.  The reference precedence ladder (override > HTTP > BOM/@charset > referring sheet > UTF-8, override governs nested imports) is evaluated on the ground truth and compared with marker and reported encoding at every depth; seeded edit steps (add @import after parse, set encoding, insert characters outside the target encoding in identifier / string / url / comment position) are each followed by: encoding attribute == @charset rule, serialisation is bytes decodable in that encoding, restart (decode + reparse) gives the same DOM.",
+    note="Candidate encodings limited to a mutually distinguishable set; an import whose bytes do not decode under the selected encoding is expected to stay unloaded. Sampling, not proof.",
+    technique="deterministic simulation with fault injection: generated multi-party fetch world (lying charsets, failing fetches) against a reference precedence model, plus edit histories with restart",
+    ref="DESIGN.md 5 C08",
+)
+
 PENDING = {'C01': "check not built yet in this round (claimed by DESIGN.md section 2; will move to 'checks' when its simulation world exists)", 'C03': "check not built yet in this round (claimed by DESIGN.md section 2; will move to 'checks' when its simulation world exists)", 'C08': "check not built yet in this round (claimed by DESIGN.md section 2; will move to 'checks' when its simulation world exists)", 'C09': "check not built yet in this round (claimed by DESIGN.md section 2; will move to 'checks' when its simulation world exists)", 'C10': "check not built yet in this round (claimed by DESIGN.md section 2; will move to 'checks' when its simulation world exists)", 'C11': "check not built yet in this round (claimed by DESIGN.md section 2; will move to 'checks' when its simulation world exists)", 'C12': "check not built yet in this round (claimed by DESIGN.md section 2; will move to 'checks' when its simulation world exists)", 'C14': "check not built yet in this round (claimed by DESIGN.md section 2; will move to 'checks' when its simulation world exists)", 'C15': "check not built yet in this round (claimed by DESIGN.md section 2; will move to 'checks' when its simulation world exists)", 'C16': "check not built yet in this round (claimed by DESIGN.md section 2; will move to 'checks' when its simulation world exists)", 'C17': "check not built yet in this round (claimed by DESIGN.md section 2; will move to 'checks' when its simulation world exists)", 'C19': "check not built yet in this round (claimed by DESIGN.md section 2; will move to 'checks' when its simulation world exists)"}
 
 
